@@ -14,7 +14,9 @@ import (
 	"net/url"
 	"strings"
 	"sync"
+	"sync/atomic"
 	"testing"
+	"time"
 
 	"github.com/modelcontextprotocol/go-sdk/auth"
 	"github.com/modelcontextprotocol/go-sdk/oauthex"
@@ -75,12 +77,21 @@ func (m *memRT) RoundTrip(req *http.Request) (*http.Response, error) {
 	return &http.Response{StatusCode: 404, Header: http.Header{}, Body: io.NopCloser(strings.NewReader("not found")), Request: req}, nil
 }
 
+// overlapImpossible is set once the handler under test has been seen to admit one attempt at a time (the
+// second attempt neither parked nor ended within the guard time): later cases have nothing to decide.
+var overlapImpossible atomic.Bool
+
 func runOverlap(s OverlapScript) (res vt.Result) {
+	if overlapImpossible.Load() {
+		res.Class("attempts_serialised")
+		return res
+	}
 	rt := &memRT{}
 	type parked struct {
 		idx    int
 		state  string
 		answer chan *auth.AuthorizationResult
+		errc   chan error // where the Authorize call of this attempt reports
 	}
 	arrivals := make(chan *parked, 8)
 	var seq int
@@ -118,7 +129,33 @@ func runOverlap(s OverlapScript) (res vt.Result) {
 			resp.Header.Set("WWW-Authenticate", `Bearer resource_metadata="https://rs.example/.well-known/oauth-protected-resource/mcp"`)
 			ch <- handler.Authorize(ctx, req, resp)
 		}(errs[i])
-		p := <-arrivals
+		// An attempt either parks in the user-interaction step or - with a handler that admits one attempt at a
+		// time, which is stricter than the property - ends at once with an error, or waits for the pending one.
+		var p *parked
+		select {
+		case p = <-arrivals:
+			p.errc = errs[i]
+		case err := <-errs[i]:
+			if err == nil {
+				res.Failf("attempt %d succeeded without asking for an authorization code", i)
+			}
+			res.Class("attempt_refused_while_another_is_pending")
+			continue
+		case <-time.After(3 * time.Second): // wall clock, only as a guard against hanging: cannot raise an alarm
+			res.Class("attempts_serialised")
+			overlapImpossible.Store(true)
+			go func() {
+				for q := range arrivals {
+					q.answer <- &auth.AuthorizationResult{}
+				}
+			}()
+			for _, q := range all {
+				q.answer <- &auth.AuthorizationResult{}
+				<-q.errc
+			}
+			<-errs[i]
+			return res
+		}
 		if p.state == "" {
 			res.Failf("attempt %d: the authorization URL carries no state", i)
 			for _, q := range append(all, p) {
@@ -133,7 +170,11 @@ func runOverlap(s OverlapScript) (res vt.Result) {
 		}
 		all = append(all, p)
 	}
-	// errs[i] belongs to the attempt that parked i-th (attempts are started strictly one at a time)
+	// p.errc belongs to the attempt that parked (attempts are started strictly one at a time)
+	if len(all) == 0 {
+		return res
+	}
+	newest := all[len(all)-1]
 	waiting := append([]*parked(nil), all...)
 	var desc strings.Builder
 	wantOK := map[int]bool{}
@@ -160,7 +201,13 @@ func runOverlap(s OverlapScript) (res vt.Result) {
 		wantOK[p.idx] = state == p.state
 		fmt.Fprintf(&desc, "%d:%s,", p.idx, a.State)
 		p.answer <- &auth.AuthorizationResult{Code: fmt.Sprintf("code-%d", p.idx), State: state}
-		err := <-errs[p.idx]
+		err := <-p.errc
+		// Only the newest attempt is required to succeed with its own state: a handler that drops older pending
+		// attempts when a new one starts is stricter than the property.
+		if wantOK[p.idx] && err != nil && p != newest {
+			wantOK[p.idx] = false
+			res.Class("older_attempt_with_own_state_refused")
+		}
 		if wantOK[p.idx] && err != nil {
 			res.Failf("attempt %d was handed its own state but failed: %v", p.idx, err)
 		}
@@ -170,7 +217,7 @@ func runOverlap(s OverlapScript) (res vt.Result) {
 	}
 	for _, p := range waiting {
 		p.answer <- &auth.AuthorizationResult{}
-		<-errs[p.idx]
+		<-p.errc
 	}
 	rt.mu.Lock()
 	exchanged := append([]string(nil), rt.exchanged...)
